@@ -187,8 +187,17 @@ def run_case(sh, i, plan):
             else:
                 label += "(not-imported)"
             other.build()
+            first = W.split(".")[0]
             W = f"{prog.name}.{W}"
             caller = getattr(other.module, f"_call{depth}")
+            if rng.random() < 0.4:
+                # the issuing function has a LOCAL variable (and its module a global) called like the referenced name, bound to something
+                # else: the reference names its module explicitly, so neither may capture it
+                exec(f"{first} = bytes\ndef _shadowing_caller(fn, *a, **k):\n    {first} = int\n    return fn(*a, **k) if {first} is int else None\n",  # noqa: S102
+                     other.module.__dict__)
+                caller = other.module._shadowing_caller
+                label += "(shadowed)"
+                sh.count("shadowed_qualified_refs")
             qualified = True
             label += "(qualified)"
 
